@@ -233,7 +233,59 @@ fn answerable_model(script: &[Msg], id: u64) -> usize {
     n
 }
 
-fn check(s: &Shared, script: &[Msg], limit: Option<usize>, ended: bool, half_close: bool, in_flight_after: usize, handlers_pending_throughout: bool, model_applies: bool, desc: &str) -> Vec<String> {
+/// C12, "a request is refused only if L requests really were in flight when it was read": the outcomes (requests
+/// accepted, accepted and later cancelled, and throttle replies, per id) an ideal limiter can produce for `script` when no handler finishes before
+/// the whole script has been read. A request whose id is tracked is a duplicate (ignored); a request read while L are
+/// tracked is refused (one reply, not tracked); any other request is accepted -- except at the one place where the
+/// real code is known to deviate (known finding F7, listed in known_findings.json): the request read directly after a
+/// cancellation that freed a slot of a full channel may be refused as well. Both outcomes are allowed there, so
+/// that a *different* over-refusal is still reported.
+fn limiter_outcomes(script: &[Msg], l: usize) -> Vec<([usize; 2], [usize; 2], [usize; 2])> {
+    // state: (tracked ids, accepted per id, accepted-then-cancelled per id, refusals per id, a cancellation freed a slot of a full channel just before)
+    let mut states: Vec<(Vec<u64>, [usize; 2], [usize; 2], [usize; 2], bool)> = vec![(vec![], [0, 0], [0, 0], [0, 0], false)];
+    let ix = |id: u64| (id - 7) as usize;
+    for m in script {
+        let mut next = vec![];
+        for (tracked, acc, canc, refd, freed) in states {
+            match m {
+                Msg::Cancel(j) => {
+                    let was_full = tracked.len() >= l;
+                    let had = tracked.contains(j);
+                    let t: Vec<u64> = tracked.iter().copied().filter(|x| x != j).collect();
+                    let mut c = canc;
+                    if had {
+                        c[ix(*j)] += 1;
+                    }
+                    next.push((t, acc, c, refd, freed || (was_full && had)));
+                }
+                Msg::Req(i) => {
+                    if tracked.contains(i) {
+                        next.push((tracked, acc, canc, refd, freed));
+                    } else if tracked.len() >= l {
+                        let mut r = refd;
+                        r[ix(*i)] += 1;
+                        next.push((tracked, acc, canc, r, false));
+                    } else {
+                        let mut t = tracked.clone();
+                        t.push(*i);
+                        let mut v = acc;
+                        v[ix(*i)] += 1;
+                        next.push((t, v, canc, refd, false));
+                        if freed {
+                            let mut r = refd;
+                            r[ix(*i)] += 1;
+                            next.push((tracked, acc, canc, r, false));
+                        }
+                    }
+                }
+            }
+        }
+        states = next;
+    }
+    states.into_iter().map(|(_, a, c, r, _)| (a, c, r)).collect()
+}
+
+fn check(s: &Shared, script: &[Msg], limit: Option<usize>, ended: bool, half_close: bool, in_flight_after: usize, handlers_pending_throughout: bool, model_applies: bool, in_order: bool, desc: &str) -> Vec<String> {
     let mut errs: Vec<String> = vec![];
     for v in &s.violations {
         errs.push(format!("{v}; {desc}"));
@@ -286,6 +338,16 @@ fn check(s: &Shared, script: &[Msg], limit: Option<usize>, ended: bool, half_clo
         let id_reused_after_cancel = (0..script.len()).any(|i| matches!(script[i], Msg::Cancel(c) if script[i + 1..].contains(&Msg::Req(c))));
         if s.max_running > l && (handlers_pending_throughout || !id_reused_after_cancel) {
             errs.push(format!("C12: {} handlers ran concurrently with limit {l}; {desc}", s.max_running));
+        }
+    }
+    if let (Some(l), true, true) = (limit, handlers_pending_throughout, in_order) {
+        // the whole script was read while every handler was still pending, so what is in flight at each read follows from the script
+        let inv = [7u64, 8].map(|id| s.started.iter().filter(|(i, _)| *i == id).count());
+        let refd = [7u64, 8].map(|id| s.wire.iter().filter(|(i, m)| *i == id && m.is_err()).count());
+        // a request that was accepted and then cancelled may or may not have had its handler started
+        let possible = limiter_outcomes(script, l).into_iter().any(|(acc, canc, r)| r == refd && (0..2).all(|k| inv[k] <= acc[k] && inv[k] + canc[k] >= acc[k]));
+        if !possible {
+            errs.push(format!("C12: handler invocations {inv:?} and throttle replies {refd:?} (for ids 7, 8) are not an outcome of a limiter that refuses a request only when {l} request(s) are in flight when it is read (the known over-refusal F7 -- the request read right after a cancellation that freed a slot -- allowed for); wire {:?}; {desc}", s.wire));
         }
     }
     if half_close {
@@ -407,7 +469,7 @@ fn one(script: &[Msg], polls: u32, release_rev: bool, release_before_last: bool,
             // the response-count model is exact when handlers stay pending to the end, or when they finish just before the
             // last message and every earlier message had already been processed
             let all_earlier_polled = (0..script.len().saturating_sub(1)).all(|i| polls & (1 << i) != 0);
-            let errs = check(&s, script, limit, run.ended, half_close, in_flight, !release_before_last, !release_before_last || all_earlier_polled, &desc);
+            let errs = check(&s, script, limit, run.ended, half_close, in_flight, !release_before_last, !release_before_last || all_earlier_polled, !gated && !late_tasks, &desc);
             if errs.is_empty() { Ok(()) } else { Err(errs) }
         }};
     }
